@@ -225,3 +225,29 @@ Proof.
   - apply in_ranges_spec in E1. apply (proj2 (BucketsProofs.rules_match_spec rr h)) in E1. congruence.
   - apply BucketsProofs.rules_match_spec in E2. apply (proj2 (in_ranges_spec rr h)) in E2. congruence.
 Qed.
+
+(* the tolerance of the deviation clause is tight enough to reject a wrong
+   variance formula even where it is hardest: data with a large offset and a
+   small spread (values 1000000, 1000001, 1000003; sample deviation 1.5275...):
+   accepted with the correct deviation; rejected with the population deviation
+   (n instead of n-1: 1.2472...) and even with the 0.1 % error that n vs n-1
+   makes for 500 values (deviation * sqrt(499/500)) *)
+Example deviation_tolerance_examples :
+  let e := exact [QB 4696837146684686336; QB 4696837155274620928; QB 4696837172454490112] in
+  let o d := mkO 3 4696837146684686336 4696837172454490112 4696837158137932459 4703696870881361920 d in
+  snap_diff e (o 4609558181236713650%N) = [] /\
+  snap_diff e (o 4608295794776921307%N) = [6]%nat /\
+  snap_diff e (o 4609551298431524565%N) = [6]%nat.
+Proof. vm_compute. repeat split. Qed.
+
+(* the internal-consistency check of measures with unknown values *)
+Example snap_sane_examples :
+  (* n=2 min=1 max=3 avg=2 sum=4 dev=1.414.. *)
+  snap_sane (mkO 2 4607182418800017408 4613937818241073152 4611686018427387904 4616189618054758400 4609047870845172685) = [] /\
+  (* mean outside [min,max] *)
+  snap_sane (mkO 2 4607182418800017408 4613937818241073152 4616189618054758400 4620693217682128896 4609047870845172685) = [5]%nat /\
+  (* sum <> mean * count *)
+  snap_sane (mkO 3 4607182418800017408 4613937818241073152 4611686018427387904 4616189618054758400 4609047870845172685) = [4]%nat /\
+  (* a single value must have an undefined deviation *)
+  snap_sane (mkO 1 4607182418800017408 4607182418800017408 4607182418800017408 4607182418800017408 0) = [6]%nat.
+Proof. vm_compute. repeat split. Qed.
